@@ -284,23 +284,38 @@ func c14Check(c c14Case) error {
 			}
 		}
 	}
+	// a program-counter hook at the first instruction's address counts its calls: tracing must not change how often it runs
+	hookCalls := 0
+	startPC := uint32(c.Init.RK)<<16 | uint32(c.Init.PC)
+	setHook := func() {
+		hookCalls = 0
+		scpu.C.OnPC = map[uint32]func(){startPC: func() { hookCalls++ }}
+	}
+	defer func() { scpu.C.OnPC = nil }()
 	// run A
 	ma := load(scpu)
 	scpu.C.OnPC, scpu.C.OnWDM = nil, nil
+	setHook()
 	sys.Logger = nil
 	if p := rig.Safe(func() error { sys.RunUntil(never, budget); return nil }); p != nil {
 		return fmt.Errorf("untraced RunUntil failed: %v", p)
 	}
 	ra := scpu.Raw()
+	hookA := hookCalls
 	// run B
 	mb := load(scpu)
 	lw := &countWriter{}
 	sys.Logger = lw
+	setHook()
 	p := rig.Safe(func() error { sys.RunUntil(never, budget); return nil })
 	sys.Logger = nil
 	if p != nil {
 		return fmt.Errorf("traced RunUntil failed: %v", p)
 	}
+	if hookCalls != hookA {
+		return fmt.Errorf("the OnPC hook at $%06X ran %d times in the traced run and %d times in the untraced run", startPC, hookCalls, hookA)
+	}
+	scpu.C.OnPC = nil
 	if rb := scpu.Raw(); rb != ra {
 		return fmt.Errorf("running with a Logger changed the final state: traced %+v, untraced %+v", rb, ra)
 	}
